@@ -82,14 +82,12 @@ Lemma ex_failing_move :
   wf_ro ro = true /\ msg_ok m = true /\ r_err (add o ro k m) = Some MosMergeError.
 Proof. exists no_oracles, ex_ro, ItemMoveMultiple, ex_imove_bad. repeat split; vm_compute; reflexivity. Qed.
 
-(* ---- C12: a story without storyID makes find_child raise AttributeError *)
-Definition ex_ro_bad : xml :=
-  el "mos" [tx "messageID" "1"; el "roCreate" [tx "roID" "RO"; el "story" [tx "storySlug" "x"]]].
-Definition ex_del : xml :=
-  el "mos" [tx "messageID" "2"; el "roStoryDelete" [tx "roID" "RO"; tx "storyID" "A"]].
+(* ---- C12: a roStorySend without storyBody is not schema-shaped: AttributeError escapes *)
+Definition ex_send_bad : xml :=
+  el "mos" [tx "messageID" "2"; el "roStorySend" [tx "roID" "RO"; tx "storyID" "A"]].
 Lemma ex_attribute_error :
-  exists (o : oracles) ro k m, r_err (add o ro k m) = Some PyAttributeError.
-Proof. exists no_oracles, ex_ro_bad, StoryDelete, ex_del. vm_compute. reflexivity. Qed.
+  exists (o : oracles) ro k m, wf_ro ro = true /\ r_err (add o ro k m) = Some PyAttributeError.
+Proof. exists no_oracles, ex_ro, StorySend, ex_send_bad. split; vm_compute; reflexivity. Qed.
 
 (* ---- C08: the rows of the two classification tables *)
 Definition doc_with (tag : str) : xml := el "mos" [tx "messageID" "1"; Elem tag [] None None []].
